@@ -1189,4 +1189,26 @@ fn main() {
             out(t, &format!("{c}; alias a b\nunalias c\nalias"));
         }
     }
+    // (11) aliases whose value is a reserved word, ends the command, or begins with a blank / an operator (wave 3,
+    // third pass): the reserved word that comes out of a replacement is recognised where a typed one would be (and the
+    // next word is then in command position or not, as after the typed word), `echo;` puts the next word in command
+    // position, a leading blank / operator / newline is rescanned as typed text
+    let k_values = [
+        "while", "until", "if", "then", "else", "elif", "fi", "do", "done", "for", "case", "esac", "in", "{", "}", "!",
+        "echo;", "echo x;", "echo &", "x |", "x &&", " x", "\tx", " ", "; x", "&& x", "| x", "> f", "\nx", ")", "(", ";;",
+        "while x; do", "if x; then", "for i in", "case x in", "f()", "! !", "{ x; }", "x; }",
+    ];
+    let k_lines = [
+        "k x; do y; done", "if x; k y; fi", "if x; then y; k z; fi", "if x; then y; k", "while x; k y; done",
+        "while x; do y; k", "k i in x; do y; done", "for i k x; do y; done", "for i in x; k y; done", "k x in y) z;; esac",
+        "case x k y) z;; esac", "case x in y) z;; k", "case x in (k) z;; esac", "k x; }", "{ x; k", "k x", "x k y", "k",
+        "k k", "x; k y", "k y; z", "k\ny", "y k", "f() k x; }", "x && k y", "k y) z;; esac", "k y; done", "k y; fi",
+        "x | k y", "k > k y",
+    ];
+    for v in k_values.iter() {
+        for l in k_lines.iter() {
+            out(&[e("k", false, v), e("y", false, "Y"), e("z", true, "Z")], l);
+            out(&[e("k", true, &format!("{v} ")), e("y", false, "Y")], l);
+        }
+    }
 }
